@@ -4,6 +4,7 @@ package parse
 import (
 	"errors"
 	"fmt"
+	"reflect"
 	"regexp"
 	"runtime"
 	"strconv"
@@ -824,7 +825,29 @@ func (t *tree) parseQuotedExpr(str string) ast.Node {
 			t.errorf("in expression %q: %v", str, e)
 		}
 	}()
-	return tt.parseExpr(0)
+	var node = tt.parseExpr(0)
+	// the nested parser positions its nodes within str; nodes of this tree are
+	// positions in this file (error reports slice the file's text with them).
+	var tok = t.token[0]
+	if t.peekCount > 0 {
+		tok = t.token[t.peekCount-1]
+	}
+	setPos(node, tok.pos)
+	return node
+}
+
+// setPos moves node and everything below it to the given position.
+func setPos(node ast.Node, pos ast.Pos) {
+	if v := reflect.ValueOf(node); v.Kind() == reflect.Ptr && !v.IsNil() {
+		if f := v.Elem().FieldByName("Pos"); f.IsValid() && f.CanSet() {
+			f.Set(reflect.ValueOf(pos))
+		}
+	}
+	if parent, ok := node.(ast.ParentNode); ok {
+		for _, child := range parent.Children() {
+			setPos(child, pos)
+		}
+	}
 }
 
 var precedence = map[itemType]int{
